@@ -5,7 +5,7 @@ import random, json, sys
 from ..harness import impl, coq
 
 pid = 'C15'
-gen_modules = ['tr_testing', 'tr_validators', 'tr_contracts', 'tr_rest_validators', 'tr_rest_testing', 'tr_rest_contractsconst', 'tr_rest_records', 'tr_pin_introspect']
+gen_modules = ['tr_testing', 'tr_validators', 'tr_contracts', 'tr_rest_validators', 'tr_rest_testing', 'tr_rest_contractsconst', 'tr_rest_records', 'tr_extractor', 'tr_pin_introspect']
 model_targets = ['Gen/Testing.v']
 hand_modelled = ['hypothesis (strategies, seeds, the number of examples) is an oracle: the theorems start from the candidates it hands over']
 explanation = ('Theorems on TestCase.__call__ and the wrapper of deal.cases regenerated from deal/_testing.py: a candidate becomes a test case iff every precondition accepts it; '
